@@ -182,7 +182,7 @@ func tokenTable() []tokFix {
 					t = append(t, tokFix{isRetry, a0, a1, 15, 0, 1}) // fresh token, other address
 				}
 			}
-			for _, m := range []int{0, 1, 3, 5, 6} { // truncated, bit flip, foreign key, extended, empty
+			for _, m := range []int{0, 1, 3, 5, 6, 9, 9, 9} { // truncated, bit flip, foreign key, extended, empty, sealed with 21+-byte connection IDs (Retry only)
 				t = append(t, tokFix{isRetry, a0, a0, m, 0, 1})
 			}
 		}
@@ -218,7 +218,7 @@ func runToken(w *bufio.Writer, seed uint64, n int, _ []string) {
 		}
 	})
 	keys := []string{"cases", "table", "nontrivial", "kind:retry", "kind:newtoken", "mut:none", "mut:truncate", "mut:bitflip", "mut:foreign-key", "mut:random", "mut:append", "mut:empty",
-		"mut:sealed-garbage", "mut:sealed-trailing", "mut:crafted-future", "decode:nil", "decode:error", "decode:token", "valid", "invalid:address", "invalid:expired", "age:boundary", "age:boundary+1",
+		"mut:sealed-garbage", "mut:sealed-trailing", "mut:sealed-long-cid", "mut:crafted-future", "decode:nil", "decode:error", "decode:token", "valid", "invalid:address", "invalid:expired", "age:boundary", "age:boundary+1",
 		"addr:same", "addr:other-port", "addr:other-repr", "addr:other", "outcome:dropped", "outcome:invalid-token", "outcome:retry", "outcome:accept-verified", "outcome:accept-unverified", "flip-all:tokens", "flip-all:bits"}
 	for _, k := range keys {
 		fmt.Fprintf(w, "DIST\t%s\t%d\n", k, dist[k])
@@ -339,6 +339,25 @@ func tokenCase(w *bufio.Writer, r *u.Rng, idx int, g1, g2 *handshake.TokenGenera
 		presented, _ = handshake.VerifTokenSeal(g1, plain)
 		mut = "crafted-future"
 		dist["mut:crafted-future"]++
+	case 9: // a correctly sealed Retry token whose record carries a connection ID of more than 20 bytes (only the key
+		// holder can make one): DecodeToken must refuse it (it used to panic in protocol.ParseConnectionID)
+		if isRetry {
+			longO, longR := odcid, rscid
+			switch r.Intn(3) {
+			case 0:
+				longO = r.Bytes(int(r.Pick(21, 21, 22, 255)))
+			case 1:
+				longR = r.Bytes(int(r.Pick(21, 21, 64)))
+			default:
+				longO, longR = r.Bytes(21), r.Bytes(21)
+			}
+			plain, _ := handshake.VerifTokenMarshal(true, handshake.VerifEncodeRemoteAddr(a0.net()), issuedTs, 0, longO, longR)
+			presented, _ = handshake.VerifTokenSeal(g1, plain)
+			mut = "sealed-long-cid"
+			dist["mut:sealed-long-cid"]++
+		} else {
+			dist["mut:none"]++
+		}
 	default:
 		dist["mut:none"]++
 	}
@@ -428,10 +447,10 @@ func tokenCase(w *bufio.Writer, r *u.Rng, idx int, g1, g2 *handshake.TokenGenera
 	expired := now.UnixNano()-issuedTs > int64(life)
 	if !genuine {
 		// (c) truncated / flipped / foreign-key / random / extended tokens are never a proof of address
-		if class == 2 && (mut != "sealed-garbage" && mut != "sealed-trailing") {
+		if class == 2 && (mut != "sealed-garbage" && mut != "sealed-trailing" && mut != "sealed-long-cid") {
 			monfail("token/forgery-decodes", "a mutated token decoded to a token")
 		}
-		if class == 2 && (mut == "sealed-garbage" || mut == "sealed-trailing") {
+		if class == 2 && (mut == "sealed-garbage" || mut == "sealed-trailing" || mut == "sealed-long-cid") {
 			monfail("token/malformed-plaintext-decodes", "a sealed but malformed record decoded to a token")
 		}
 		if mut == "empty" && class != 0 {
